@@ -1,11 +1,15 @@
 (* LspSpec.v — the protocol's rule for applying a text edit, stated on the document as a sequence of
    Unicode scalar values (code points), independently of the byte-level mirror in Model/LspDoc.v.
 
-   LSP 3.17, "Position": a position is (line, character); lines are separated by LF here (the only
-   separator the mirrored SQL tooling produces; CR is an ordinary character for this specification);
-   character offsets count UTF-16 code units; "if the character value is greater than the line length it
-   defaults back to the line length"; property C18 adds: positions past the end of the document clamp to
-   its end, and the server must survive negative values (they clamp to the start).
+   LSP 3.17, "Text Documents" / "Position": a position is (line, character).  The line terminators are
+   LF, CR LF and CR: a LINE is a maximal run of characters containing neither LF (U+000A) nor CR (U+000D);
+   it is ended by LF, by CR immediately followed by LF (one terminator, two characters), or by a CR not
+   followed by LF; the characters after the last terminator form the last line (possibly empty), so a text
+   with k terminators has k+1 lines, numbered from 0.  Character offsets count UTF-16 code units within the
+   line; "if the character value is greater than the line length it defaults back to the line length" —
+   the line length excludes the terminator, so such a position denotes the point before the terminator.
+   Property C18 adds: positions past the end of the document clamp to its end, and the server must survive
+   negative values (they clamp to the start of the line / document).
    Where the protocol is silent the specification fixes one rule and says so:
      - a column inside a surrogate pair denotes the start of that character;
      - a range whose end lies before its start is the empty range at its start. *)
@@ -20,32 +24,36 @@ Definition cp_units (c : N) : Z := if c <? 65536 then 1%Z else 2%Z.
 Definition valid_cp (c : N) : Prop := c < 55296 \/ (57344 <= c /\ c < 1114112).
 Definition valid_text (d : list N) : Prop := Forall valid_cp d.
 
+Definition cp_eol (c : N) : bool := (c =? 10) || (c =? 13).
+
 (* number of code points of the current line that lie before column [char]; [units] = code units so far.
-   Stops at the line feed / end of the document (clamping) and before a character that would straddle
-   the column. *)
+   Stops at the line terminator / end of the document (clamping) and before a character that would
+   straddle the column. *)
 Fixpoint spec_col (d : list N) (units char : Z) : nat :=
   match d with
   | [] => 0%nat
   | c :: t =>
-      if c =? 10 then 0%nat
+      if cp_eol c then 0%nat
       else if (units + cp_units c >? char)%Z then 0%nat
       else S (spec_col t (units + cp_units c)%Z char)
   end.
 
-(* index (in code points) of position (line, char): skip [line] line feeds, then walk the column;
-   running out of text means the position is past the last line: end of the document *)
-Fixpoint spec_off (d : list N) (line : nat) (char : Z) {struct d} : nat :=
-  match line with
-  | O => spec_col d 0%Z char
-  | S k =>
-      match d with
-      | [] => 0%nat
-      | c :: t => S (spec_off t (if c =? 10 then k else S k) char)
-      end
+(* index (in code points) of position (line, char): skip [line] line terminators, then walk the column;
+   running out of text means the position is past the last line: end of the document.
+   [after_cr]: the previous character was a CR that ended a line; an LF here belongs to that terminator. *)
+Fixpoint spec_off (d : list N) (line : nat) (after_cr : bool) (char : Z) {struct d} : nat :=
+  match d with
+  | [] => 0%nat
+  | c :: t =>
+      if after_cr && (c =? 10) then S (spec_off t line false char)
+      else match line with
+           | O => spec_col d 0%Z char
+           | S k => S (spec_off t (if cp_eol c then k else S k) (c =? 13) char)
+           end
   end.
 
 Definition spec_pos (d : list N) (line char : Z) : nat :=
-  if (line <? 0)%Z then 0%nat else spec_off d (Z.to_nat line) char.
+  if (line <? 0)%Z then 0%nat else spec_off d (Z.to_nat line) false char.
 
 (* replace the range (sl,sc)-(el,ec) of d by txt *)
 Definition spec_apply (d : list N) (sl sc el ec : Z) (txt : list N) : list N :=
